@@ -89,6 +89,14 @@ func (fr *frame) call(ci ssa.CallInstruction, res ssa.Value, st *State, reach st
 		setRes(fr.inline(callee, c, args, com, st, reach))
 		return
 	}
+	if c != nil && c.DynInline && callee != nil && len(callee.Blocks) > 0 && fr.depth < maxInlineDepth && !ft.onStack(callee) {
+		for _, a := range args {
+			if a.DynT != nil {
+				setRes(fr.inline(callee, c, args, com, st, reach))
+				return
+			}
+		}
+	}
 	if c != nil && !c.Inline {
 		c.Used = true
 		setRes(fr.modular(key, c, callee, sig, args, st, reach))
